@@ -14,7 +14,7 @@ RULE = ('states = E1 states (<=1 edit quick / full alphabet + 2 edits thorough, 
 ASSUMPTIONS = ['only presentations within the deviation bound of a seed are explored']
 
 
-SPLIT = {'stdnum.mac': 12}      # slow validators (4 ms registry scan with validate_manufacturer): states spread over work items
+SPLIT = {'stdnum.mac': 12, 'stdnum.gs1_128': 12}      # slow validators (4 ms registry scan with validate_manufacturer): states spread over work items
 
 
 def plan(ctx):
